@@ -126,6 +126,48 @@ def obligation_printer_fp(tier):
                       twin_every=1, budget_s=900.0, abstract_ok=True)
 
 
+def h_multi_c02(ctx, n, n_nan, ypat, params):
+    """O2.7: the literal C02 statement on every generated column of a MulticlassCarver with an explicit min_freq_mod."""
+    from AutoCarver import MulticlassCarver
+    from symx import Violation
+    from symx.rebind import rebound
+
+    X, xs = k_api.make_X(ctx, n, n_nan, companions=False)
+    N = n + n_nan
+    y = pd.Series(list(ypat)[:N], index=X.index)
+    with rebound(ctx, ["R1", "R2"]):
+        mc = MulticlassCarver(quantitative_features=["f"], copy=True, **params)
+        try:
+            mc.fit(X, y)
+        except Violation:
+            raise
+        except AssertionError as e:
+            return dict(counters={"assertion": 1}, sample=dict(ypat=ypat, outcome="AssertionError"), result=dict(outcome="AssertionError"))
+        ctx.require(mc.min_freq_mod == params["min_freq_mod"], "C02.min-freq-mod-default", f"given min_freq_mod not kept: {mc.min_freq_mod!r}")
+        out = mc.transform(X)
+        cols = [c for c in out.columns if c != "f"]
+        for c in cols:
+            cls_label = c[len("f_"):]
+            ind = [1 if str(v) == cls_label else 0 for v in y]
+            k_api.check_c02(ctx, mc, list(out[c]), n, n_nan, ind, params)
+    return dict(counters={"ok": 1, "columns": len(cols)}, sample=dict(ypat=ypat, cols=cols), result=dict(cols=sorted(cols)))
+
+
+def obligation_multi(tier):
+    quick = tier == "quick"
+    jobs = []
+    for n, n_nan in (((5, 0), (4, 1)) if quick else ((5, 0), (4, 1), (5, 1))):
+        pats = k_api.ypatterns("multiclass", n + n_nan)
+        cap = 6 if quick else 20
+        step = len(pats) / cap
+        for ypat in [pats[int(i * step)] for i in range(cap)]:
+            for params in [dict(min_freq=0.2, min_freq_mod=0.4, sort_by="cramerv", max_n_mod=3, output_dtype="str", dropna=True)] + ([] if quick else [dict(min_freq=0.2, min_freq_mod=0.3, sort_by="tschuprowt", max_n_mod=2, output_dtype="float", dropna=False)]):
+                jobs.append(dict(n=n, n_nan=n_nan, ypat=ypat, params=params))
+    return Obligation(name="O2.7 MulticlassCarver with an explicit min_freq_mod: every generated column has <= max_n_mod labels, each >= min_freq_mod frequent, NaN per dropna",
+                      harness=h_multi_c02, jobs=jobs, encodes=k_api.ENC_COMMON + k_api.ENC_CARVER + ["MulticlassCarver.fit/transform"], rebindings=k_api.RB,
+                      bounds=f"n=4-5 symbolic rows (+0/1 NaN), {6 if quick else 20} three-class target patterns, min_freq_mod=0.4 > min_freq/2", twin_every=5, budget_s=6.0)
+
+
 def h_minfreqmod(ctx, given):
     """O2.3: min_freq_mod defaults to min_freq/2 and is kept when given."""
     from AutoCarver import BinaryCarver, ContinuousCarver
@@ -157,6 +199,7 @@ def obligations(tier):
         Obligation(name="O2.2 BinaryCarver._printer: frequency and target_rate equal their definitions", harness=h_printer, jobs=pj,
                    encodes=["BinaryCarver._printer"], bounds="k<=4 modalities, symbolic positives, one modality possibly absent", twin_every=2),
         obligation_printer_fp(tier),
+        obligation_multi(tier),
         Obligation(name="O2.3 min_freq_mod defaults to min_freq/2", harness=h_minfreqmod, jobs=[dict(given=False), dict(given=True)],
                    encodes=["BaseCarver.__init__"], bounds="min_freq any real in (0,0.5]", twin=False),
     ]
